@@ -50,9 +50,20 @@ def _to_str(p):
         return None
 
 
+def _statsig(p):
+    try:
+        st = os.lstat(p)
+    except (OSError, ValueError):
+        return None
+    return (st.st_ino, st.st_mode, st.st_size, st.st_mtime_ns, st.st_ctime_ns)
+
+
 class FsAudit:
     """usage: a = FsAudit.get(); a.start(); <call>; events = a.stop()
-    events: list of dicts {event, path (as given), real (realpath at event time), cwd}"""
+    events: list of dicts {event, path (as given), real (realpath at event time), cwd, before, after, effective}
+    Audit events fire *before* the operation and also for operations that then fail (ENOENT, EEXIST ...).  `before` is the lstat
+    signature of `real` at event time, `after` the signature at the next audit event of any kind (or at stop()); `effective` says
+    that the entry came into being or changed - only effective events are creations."""
     _inst = None
 
     def __init__(self):
@@ -60,6 +71,7 @@ class FsAudit:
         self.events = []
         self.seen_total = 0  # all audit events delivered while the window was open (liveness of the hook)
         self._busy = False
+        self._pending = []
 
     @classmethod
     def get(cls):
@@ -72,6 +84,12 @@ class FsAudit:
         if not self.on or self._busy:
             return
         self.seen_total += 1
+        if self._pending:
+            self._busy = True
+            try:
+                self._settle()
+            finally:
+                self._busy = False
         path = None
         if event == "open":
             if len(args) >= 3 and _is_write_open(args[1], args[2]):
@@ -92,17 +110,26 @@ class FsAudit:
                 real = os.path.realpath(path)
             except Exception:
                 real = os.path.abspath(path)
-            self.events.append({"event": event, "path": path, "real": real, "cwd": cwd})
+            self.events.append({"event": event, "path": path, "real": real, "cwd": cwd, "before": _statsig(real), "after": None, "effective": None})
+            self._pending.append(self.events[-1])
         finally:
             self._busy = False
 
+    def _settle(self):
+        for e in self._pending:
+            e["after"] = _statsig(e["real"])
+            e["effective"] = e["after"] is not None and e["after"] != e["before"]
+        self._pending = []
+
     def start(self):
         self.events = []
+        self._pending = []
         self.seen_total = 0
         self.on = True
 
     def stop(self):
         self.on = False
+        self._settle()
         return self.events
 
 
@@ -112,14 +139,24 @@ def inside(real, root_real):
 
 
 def snapshot(top):
-    """-> {relative path: 'd' | 'f' | 'l'} of everything below top (links not followed)"""
+    """-> {relative path: 'd' | 'l' | 'f:<size>:<mtime_ns>'} of everything below top (links not followed);
+    size/mtime make the overwriting of an existing file visible as well"""
     out = {}
     top = os.path.realpath(top)
     for r, dirs, files in os.walk(top, followlinks=False):
         for n in dirs + files:
             p = os.path.join(r, n)
             rel = os.path.relpath(p, top)
-            out[rel] = "l" if os.path.islink(p) else ("d" if os.path.isdir(p) else "f")
+            if os.path.islink(p):
+                out[rel] = "l"
+            elif os.path.isdir(p):
+                out[rel] = "d"
+            else:
+                try:
+                    st = os.lstat(p)
+                    out[rel] = "f:%d:%d" % (st.st_size, st.st_mtime_ns)
+                except OSError:
+                    out[rel] = "f"
     return out
 
 
